@@ -21,6 +21,38 @@ static std::vector<std::string> toks(const std::string& line) {
 }
 static long L(const std::string& s) { return atol(s.c_str()); }
 
+typedef std::vector<boost::tuple<ComplexType, ComplexType, ComplexType> > FreqVec;
+typedef std::vector<boost::tuple<long, long, long> > NumVec;
+// TwoParticleGFContainer on the communicator comm: prepareAll(quads); computeAll(clear, freqs, comm, split); returned tables, then
+// every listed element evaluated on demand on this rank
+static void run_c2(pv::ED* ed, const std::set<IndexCombination4>& quads, const FreqVec& fr, const NumVec& ns, bool clear, bool split,
+                   const boost::mpi::communicator& comm) {
+    int nf = int(ns.size());
+    TwoParticleGFContainer c(*ed->Idx, *ed->S, *ed->H, *ed->rho, *ed->Ops);
+    c.prepareAll(quads);
+    fprintf(out, "C2 split=%d clear=%d listed=%ld nontrivial=%ld\n", int(split), int(clear), long(c.ElementsMap.size()), long(c.NonTrivialElements.size()));
+    fflush(out);
+    std::map<IndexCombination4, std::vector<ComplexType> > res = c.computeAll(clear, fr, comm, split);
+    for (std::map<IndexCombination4, std::vector<ComplexType> >::const_iterator it = res.begin(); it != res.end(); ++it) {
+        fprintf(out, "TABLE %u %u %u %u %ld", it->first.Index1, it->first.Index2, it->first.Index3, it->first.Index4, long(it->second.size()));
+        for (size_t k = 0; k < it->second.size(); ++k) fprintf(out, " %s", pv::hexc(it->second[k]).c_str());
+        fprintf(out, "\n");
+    }
+    // every element the container lists: evaluate on demand on this rank
+    for (std::map<IndexCombination4, ElementWithPermFreq<TwoParticleGF> >::iterator it = c.ElementsMap.begin(); it != c.ElementsMap.end(); ++it) {
+        fprintf(out, "EVAL %u %u %u %u", it->first.Index1, it->first.Index2, it->first.Index3, it->first.Index4);
+        TwoParticleGF& x = it->second;
+        fprintf(out, " vanishing=%d status=%u", int(x.isVanishing()), x.getStatus());
+        for (int f = 0; f < nf; ++f) {
+            try {
+                ComplexType v = it->second(boost::get<0>(ns[f]), boost::get<1>(ns[f]), boost::get<2>(ns[f]));
+                fprintf(out, " %s", pv::hexc(v).c_str());
+            } catch (std::exception& e) { fprintf(out, " THROWS THROWS"); }
+        }
+        fprintf(out, "\n");
+    }
+}
+
 int main(int argc, char* argv[]) {
     boost::mpi::environment env(argc, argv);
     boost::mpi::communicator world;
@@ -76,29 +108,30 @@ int main(int argc, char* argv[]) {
                 ns.push_back(boost::make_tuple(n1, n2, n3));
                 fr.push_back(boost::make_tuple(sp * RealType(2 * n1 + 1), sp * RealType(2 * n2 + 1), sp * RealType(2 * n3 + 1)));
             }
-            TwoParticleGFContainer c(*ed->Idx, *ed->S, *ed->H, *ed->rho, *ed->Ops);
-            c.prepareAll(quads);
-            fprintf(out, "C2 split=%d clear=%d listed=%ld nontrivial=%ld\n", int(split), int(clear), long(c.ElementsMap.size()), long(c.NonTrivialElements.size()));
-            fflush(out);
-            std::map<IndexCombination4, std::vector<ComplexType> > res = c.computeAll(clear, fr, world, split);
-            for (std::map<IndexCombination4, std::vector<ComplexType> >::const_iterator it = res.begin(); it != res.end(); ++it) {
-                fprintf(out, "TABLE %u %u %u %u %ld", it->first.Index1, it->first.Index2, it->first.Index3, it->first.Index4, long(it->second.size()));
-                for (size_t k = 0; k < it->second.size(); ++k) fprintf(out, " %s", pv::hexc(it->second[k]).c_str());
-                fprintf(out, "\n");
+            run_c2(ed, quads, fr, ns, clear, split, world);
+        } else if (t[0] == "c2sub") {
+            // c2sub <groups> <split> <clear> <nf> {n1 n2 n3} then per group: <nq> {i j k l}
+            // the world is split into <groups> sub-communicators (colour = world rank mod groups); every group fills and computes a
+            // container of ITS OWN list of components on ITS OWN communicator, all groups at the same time
+            int ng = L(t[1]); bool split = L(t[2]) != 0, clear = L(t[3]) != 0; int nf = L(t[4]);
+            size_t p = 5;
+            FreqVec fr; NumVec ns;
+            ComplexType sp = Pomerol::I * M_PI / ed->rho->beta;
+            for (int f = 0; f < nf; ++f) {
+                long n1 = L(t[p]), n2 = L(t[p + 1]), n3 = L(t[p + 2]); p += 3;
+                ns.push_back(boost::make_tuple(n1, n2, n3));
+                fr.push_back(boost::make_tuple(sp * RealType(2 * n1 + 1), sp * RealType(2 * n2 + 1), sp * RealType(2 * n3 + 1)));
             }
-            // every element the container lists: evaluate on demand on this rank
-            for (std::map<IndexCombination4, ElementWithPermFreq<TwoParticleGF> >::iterator it = c.ElementsMap.begin(); it != c.ElementsMap.end(); ++it) {
-                fprintf(out, "EVAL %u %u %u %u", it->first.Index1, it->first.Index2, it->first.Index3, it->first.Index4);
-                TwoParticleGF& x = it->second;
-                fprintf(out, " vanishing=%d status=%u", int(x.isVanishing()), x.getStatus());
-                for (int f = 0; f < nf; ++f) {
-                    try {
-                        ComplexType v = it->second(boost::get<0>(ns[f]), boost::get<1>(ns[f]), boost::get<2>(ns[f]));
-                        fprintf(out, " %s", pv::hexc(v).c_str());
-                    } catch (std::exception& e) { fprintf(out, " THROWS THROWS"); }
-                }
-                fprintf(out, "\n");
+            int mine = world.rank() % ng;
+            std::set<IndexCombination4> quads;
+            for (int g = 0; g < ng; ++g) {
+                int nq = L(t[p++]);
+                for (int q = 0; q < nq; ++q, p += 4)
+                    if (g == mine) quads.insert(IndexCombination4(L(t[p]), L(t[p + 1]), L(t[p + 2]), L(t[p + 3])));
             }
+            boost::mpi::communicator sub = world.split(mine);
+            fprintf(out, "GROUP %d %d %d\n", mine, sub.rank(), sub.size());
+            run_c2(ed, quads, fr, ns, clear, split, sub);
         } else if (t[0] == "chi") {
             int i = L(t[1]), j = L(t[2]), k = L(t[3]), l = L(t[4]); bool clear = L(t[5]) != 0; int nf = L(t[6]);
             TwoParticleGF y(*ed->S, *ed->H, ed->Ops->getAnnihilationOperator(i), ed->Ops->getAnnihilationOperator(j),
